@@ -44,6 +44,20 @@ type server struct {
 	shutdown chan struct{}
 }
 
+// newServerUI builds the router with the swagger UI enabled (SWAGGER_UI names a directory), which adds mounts.
+func newServerUI(write bool, dir string) *server {
+	old, had := os.LookupEnv("SWAGGER_UI")
+	os.Setenv("SWAGGER_UI", dir)
+	defer func() {
+		if had {
+			os.Setenv("SWAGGER_UI", old)
+		} else {
+			os.Unsetenv("SWAGGER_UI")
+		}
+	}()
+	return newServer(write)
+}
+
 func newServer(write bool) *server {
 	// chi's request logger prints every request to stdout: silence it (it is looked up when the
 	// router is built)
@@ -92,7 +106,7 @@ func (s *server) do(method, target string, body string) (outcome, error) {
 	case reached != "":
 	case rec.Code == 200 && strings.Contains(out.Body, "pong"):
 		out.Reached = "ping"
-	case rec.Code == 500 && !strings.Contains(out.Body, "Internal server error"):
+	case rec.Code == 500 && out.Body == "":
 		out.Reached = "db-handler" // the eons / decryptionKey handlers panic on the nil pool; Recoverer answers 500
 	}
 	return out, nil
@@ -161,13 +175,27 @@ func genTarget(r *hx.Rand) string {
 // Run is the C18 check.
 func Run(cfg Config) (int, error) {
 	res := hx.NewResult("C18", cfg.Seed, cfg.Tier)
-	res.Rule = "all methods x paths generated from the OpenAPI templates by parameter substitution and spelling mutations (trailing/duplicate slashes, %2F, %73hutdown, .., case, empty segments, prefixes), with write operations on and off; distinct by (write, method, target)"
+	res.Rule = "all methods x paths generated from the OpenAPI templates by parameter substitution and spelling mutations (trailing/duplicate slashes, %2F, %73hutdown, .., case, empty segments, prefixes incl. none and /ui), with write operations on and off and with the swagger UI mount (SWAGGER_UI) absent and present; distinct by (write, ui, method, target)"
 	n := 6000
 	if cfg.Tier == "thorough" {
 		n = 300000
 	}
 	r := hx.NewRand(cfg.Seed ^ 0xC18)
-	servers := map[bool]*server{false: newServer(false), true: newServer(true)}
+	os.Unsetenv("SWAGGER_UI")
+	plain := map[bool]*server{false: newServer(false), true: newServer(true)}
+	uiDir, err := os.MkdirTemp("", "verif-c18-ui-")
+	if err != nil {
+		return 2, err
+	}
+	defer os.RemoveAll(uiDir)
+	_ = os.WriteFile(filepath.Join(uiDir, "index.html"), []byte("<html></html>"), 0o644)
+	withUI := map[bool]*server{false: newServerUI(false, uiDir), true: newServerUI(true, uiDir)}
+	srvOf := func(w, ui bool) *server {
+		if ui {
+			return withUI[w]
+		}
+		return plain[w]
+	}
 	methods := []string{"GET", "POST", "PUT", "DELETE", "PATCH", "HEAD", "OPTIONS", "get"}
 	violate := func(kind, key, what string, detail interface{}) {
 		path := filepath.Join(cfg.ReplayDir, fmt.Sprintf("C18-%s-%s-%d.json", kind, key, len(res.Violations)))
@@ -182,23 +210,30 @@ func Run(cfg Config) (int, error) {
 		out            outcome
 		pathTok, rawTok string
 		inAPI          bool
+		ui             bool
 	}
 	items := []item{}
 	lines := []string{}
 	// canonical reachability of the read-only operations, both modes
 	for _, w := range []bool{false, true} {
 		for _, c := range []struct{ m, t, want string }{{"GET", "/v1/ping", "ping"}, {"GET", "/v1/eons", "db-handler"}, {"GET", "/v1/decryptionKey/1/" + epoch, "db-handler"}} {
-			o, err := servers[w].do(c.m, c.t, "")
-			if err != nil || o.Reached != c.want {
-				violate("spec", "readonly-unreachable", fmt.Sprintf("read-only operation not reachable (write=%v): %s %s -> %+v", w, c.m, c.t, o), nil)
+			for _, ui := range []bool{false, true} {
+				o, err := srvOf(w, ui).do(c.m, c.t, "")
+				if err != nil || o.Reached != c.want {
+					violate("spec", "readonly-unreachable", fmt.Sprintf("read-only operation not reachable (write=%v swagger-ui=%v): %s %s -> %+v", w, ui, c.m, c.t, o), nil)
+				}
 			}
 		}
 	}
 	body := fmt.Sprintf(`{"epoch_id":"%s","block_number":5}`, epoch)
 	for i := 0; i < n && len(res.Violations) == 0; i++ {
 		w := r.Bool()
+		ui := r.Chance(30)
 		m := methods[r.Intn(len(methods))]
 		t := genTarget(r)
+		if ui && r.Chance(10) {
+			t = "/ui" + t
+		}
 		if r.Chance(55) { // the method the document defines for this path, if any
 			switch {
 			case strings.Contains(t, "hutdown") || strings.Contains(t, "ecryptionTrigger") || strings.Contains(t, "HUTDOWN") || strings.Contains(t, "TRIGGER"):
@@ -211,25 +246,28 @@ func Run(cfg Config) (int, error) {
 		if m == "POST" && r.Chance(80) {
 			b = body
 		}
-		o, err := servers[w].do(m, t, b)
+		o, err := srvOf(w, ui).do(m, t, b)
 		if err != nil {
 			res.Count("unparsable-target")
 			continue
 		}
 		res.Evaluations++
-		res.Distinct(fmt.Sprintf("%v %s %s", w, m, t))
+		res.Distinct(fmt.Sprintf("%v %v %s %s", w, ui, m, t))
+		if ui {
+			res.Count("swagger-ui-enabled")
+		}
 		res.Count(fmt.Sprintf("status:%d", o.Status))
 		if o.Reached != "" {
 			res.Count("reached:" + o.Reached)
 		}
 		// the property on the implementation
 		if !w && (o.Reached == "shutdown" || o.Reached == "trigger") {
-			violate("spec", "write-op-reached", fmt.Sprintf("write operations disabled but %s reached the %s operation", m+" "+t, o.Reached), map[string]string{"method": m, "target": t})
+			violate("spec", "write-op-reached", fmt.Sprintf("write operations disabled (swagger-ui=%v) but %s reached the %s operation", ui, m+" "+t, o.Reached), map[string]string{"method": m, "target": t, "swagger_ui": fmt.Sprint(ui)})
 			break
 		}
 		// what the API router saw: path and raw path with the /v1 mount stripped
 		u, _ := url.Parse("http://keyper" + t)
-		it := item{write: w, method: m, target: t, out: o}
+		it := item{write: w, method: m, target: t, out: o, ui: ui}
 		if strings.HasPrefix(u.Path, "/v1/") && (u.RawPath == "" || strings.HasPrefix(u.RawPath, "/v1/")) {
 			it.inAPI = true
 			p := strings.TrimPrefix(u.Path, "/v1")
@@ -256,7 +294,7 @@ func Run(cfg Config) (int, error) {
 		if it.method == "POST" {
 			b = body
 		}
-		o2, err := servers[it.write].do(it.method, it.target, b)
+		o2, err := srvOf(it.write, it.ui).do(it.method, it.target, b)
 		res.Count("determinism-recheck")
 		if err == nil && (o2.Status != it.out.Status || o2.Reached != it.out.Reached) && !(it.method == "POST" && (o2.Status == 400 || it.out.Status == 400)) {
 			if !it.write && (o2.Reached == "shutdown" || o2.Reached == "trigger") {
